@@ -810,6 +810,15 @@ pixman_image_set_alpha_map (pixman_image_t *image,
 
     return_if_fail (!alpha_map || alpha_map->type == BITS);
 
+    if (alpha_map == image)
+    {
+	/* An image that is its own alpha map would both have an
+	 * alpha map and be one; it would also hold a reference
+	 * to itself and never be freed.
+	 */
+	return;
+    }
+
     if (alpha_map && common->alpha_count > 0)
     {
 	/* If this image is being used as an alpha map itself,
